@@ -23,7 +23,7 @@ RULE = ("notes = names (7 letters x every '#'/'b' string up to length 4 in all o
         "and with an octave suffix. Non-trivial: name with an accidental (incl. spellings that cross the octave "
         "boundary, Cb / B#), pair of different letters, detune != 0, bound value outside the range, malformed string "
         "sharing a valid prefix."
-        " Also: the same Note object reused across Hz conversions with different standard pitches; velocity / channel bounds together with the 'Name-octave' text form; a coverage-guided atheris campaign over name-like text; comparisons between notes that differ in velocity and channel (half of them of equal pitch); the frequency of every spelling against the pitch-number formula at three standard pitches; direct assignment to .name / .octave after the number has been read; one frequency read under four standard pitches in a row.")
+        " Also: the same Note object reused across Hz conversions with different standard pitches; velocity / channel bounds together with the 'Name-octave' text form; a coverage-guided atheris campaign over name-like text; comparisons between notes that differ in velocity and channel (half of them of equal pitch); the frequency of every spelling against the pitch-number formula at three standard pitches; direct assignment to .name / .octave after the number has been read; one frequency read under four standard pitches in a row; one Note object reading a walk of detuned neighbouring pitches.")
 ASSUMPTIONS = [
     "'printed form' is repr(note), a quoted Python string literal; it is unquoted with ast.literal_eval before being fed back",
     "malformed names are non-empty strings without '-' that do not match [A-G][#b]*, alone or followed by '-<int>' "
@@ -342,7 +342,33 @@ def sub_sort(ctx, shard, n):
     ctx.given("sort", check_sort, st.lists(st.sampled_from(NOTES350), min_size=0, max_size=12), 600 if ctx.quick else 10000)
 
 
+def check_hz_sequence(ctx, case):
+    """one Note object reads a sequence of (detuned) frequencies one after the other, under one standard pitch: every reading
+    gives the pitch it was made from, whatever was read before"""
+    std, seq = case
+    x = Note("C", 4)
+    for k, (i, cents) in enumerate(seq):
+        hz = std * 2.0 ** ((i - 57) / 12.0) * 2.0 ** (cents / 1200.0)
+        r = ctx.ok("from_hertz", x.from_hertz, hz, std)
+        if failed(r):
+            return
+        ctx.check(T.valid(x.name) and T.pitch(x.name, x.octave) == i, "hertz/sequence-on-one-note",
+                  lambda: "reading %d of %r under %r Hz: %r Hz (pitch %d detuned by %r cents) reads as %r-%r" % (k, seq, std, hz, i, cents, x.name, x.octave))
+    ctx.note_case(len(seq) >= 2, ["hz-sequence:%d" % min(len(seq), 6)])
+
+
+CHECKS["hz_sequence"] = check_hz_sequence
+
+
 def sub_hz(ctx, shard, n):
+    if shard == 0:
+        # neighbouring semitones detuned towards and away from each other, read by one and the same Note object
+        fixed = [[440, [[i, c1], [i + d, c2]]] for i in (12, 57, 60, 100) for d in (1, -1, 0, 2) for c1 in (-40, -30, 30, 40) for c2 in (-40, -30, 30, 40)]
+        ctx.enumerate("hz_sequence", check_hz_sequence, fixed)
+    step = st.tuples(st.integers(-2, 2), st.floats(-40.0, 40.0) | st.sampled_from([-40.0, -30.0, 30.0, 40.0]))
+    walk = st.tuples(st.sampled_from(STANDARD_PITCHES), st.integers(5, 120), st.lists(step, min_size=1, max_size=8)).map(
+        lambda t: [t[0], [[max(0, min(127, t[1] + sum(s[0] for s in t[2][:k + 1]))), t[2][k][1]] for k in range(len(t[2]))]])
+    ctx.given("hz_sequence", check_hz_sequence, walk, 500 if ctx.quick else 5000)
     grid = [[i, s, c] for i in range(128) for s in STANDARD_PITCHES for c in (-40, -20, 0, 20, 40)]
     if shard == 0:
         ctx.exhaustive("Hz round trip: ints 0..127 x 5 standard pitches x 5 detunings", "listed", len(grid))
